@@ -246,14 +246,17 @@ def _cli_root():
     return _CLI
 
 
-def run_cli(root, args, stdin_mode, timeout=120):
-    env = dict(os.environ, PYTHONUTF8='1', LC_ALL='C.UTF-8', PYTHONDONTWRITEBYTECODE='1', PYTHONWARNINGS='ignore')
+def run_cli(root, args, stdin_mode, timeout=120, ctx=None):
+    from .. import cli
+    ctx = ctx or cli.DEFAULT
+    env = cli.env_for(ctx)
+    cwd = cli.cwd_for(root, ctx)
     cmd = [sys.executable, os.path.join(root, 'pcfg_guesser.py')] + args
     if stdin_mode == 'devnull':
-        p = subprocess.run(cmd, stdin=subprocess.DEVNULL, capture_output=True, env=env, timeout=timeout, cwd=root)
+        p = subprocess.run(cmd, stdin=subprocess.DEVNULL, capture_output=True, env=env, timeout=timeout, cwd=cwd)
         return p.stdout, p.stderr, p.returncode
     if stdin_mode == 'open_pipe':
-        p = subprocess.Popen(cmd, stdin=subprocess.PIPE, stdout=subprocess.PIPE, stderr=subprocess.PIPE, env=env, cwd=root)
+        p = subprocess.Popen(cmd, stdin=subprocess.PIPE, stdout=subprocess.PIPE, stderr=subprocess.PIPE, env=env, cwd=cwd)
         try:
             out = p.stdout.read()        # until the child closes stdout (exit); stdin stays open and silent
             err = p.stderr.read()
@@ -274,18 +277,56 @@ def prop_cli(case, rec):
     iroot = _root()
     rsmodel.write_ruleset(os.path.join(iroot, 'Rules', 'T'), m)
     u = guard(case, session.run_main, iroot, argv_for(flags))
+    from .. import cli
     root = _cli_root()
-    rsmodel.write_ruleset(os.path.join(root, 'Rules', 'T'), m)
-    args = argv_for(flags) + (['-n', str(n)] if n else [])
+    ctx = case.get('context') or cli.DEFAULT
+    rule = ctx.get('rule', 'T')
+    rsmodel.write_ruleset(os.path.join(root, 'Rules', rule), m)
+    args = [rule if a == 'T' else a for a in argv_for(flags)] + (['-n', str(n)] if n else [])
+    if case.get('long_options'):
+        args = [{'-r': '--rule', '-s': '--session', '-n': '--limit'}.get(a, a) for a in args]
     try:
-        out, err, rc = run_cli(root, args, mode)
+        out, err, rc = run_cli(root, args, mode, ctx=ctx)
     except subprocess.TimeoutExpired:
         rec.skip('cli_timeout_inconclusive')
         return
     want_lines = u.lines[:n] if n else u.lines
     want = ''.join(l + '\n' for l in want_lines).encode('utf-8')
-    rec.case({'args': args, 'stdin': mode, 'lines': len(want_lines), 'rc': rc}, len(want_lines) >= 2, ['cli_' + mode, 'cli_limit' if n else 'cli_unlimited'],
-             key=[m, flags, n, mode])
+    rec.case({'args': args, 'stdin': mode, 'lines': len(want_lines), 'rc': rc, 'context': ctx}, len(want_lines) >= 2,
+             ['cli_' + mode, 'cli_limit' if n else 'cli_unlimited'] + cli.label(ctx), key=[m, flags, n, mode, ctx, case.get('long_options')])
+    if ctx.get('io') == 'ascii':
+        # a stdout that cannot represent every guess. Whatever the tool does with those (the unchanged tool drops them but counts
+        # them), the guesses of this run that do arrive keep the run's order, the representable ones form a prefix of the
+        # representable guesses of the unlimited run, at least those among the first N and at most N of them
+        def ascii_ok(x):
+            try:
+                x.encode('ascii')
+                return True
+            except UnicodeEncodeError:
+                return False
+        member = set(u.lines)
+        # a guess may also arrive in an escaped spelling (any of Python's codec error handlers): it is still that guess
+        escaped = {}
+        for g_ in member:
+            if not ascii_ok(g_):
+                for h in ('backslashreplace', 'xmlcharrefreplace', 'namereplace', 'replace', 'ignore'):
+                    escaped.setdefault(g_.encode('ascii', h).decode('ascii'), g_)
+        got = []
+        for l in out.decode('utf-8', 'replace').split('\n')[:-1]:
+            if l in member:
+                got.append(l)
+            elif l in escaped:
+                got.append(escaped[l])
+        all_ascii = [l for l in u.lines if ascii_ok(l)]
+        got_ascii = [l for l in got if ascii_ok(l)]
+        least = len([l for l in want_lines if ascii_ok(l)])
+        rec.cls('cli_stdout_cannot_encode_some_guess' if least < len(want_lines) else 'cli_ascii_stdout_all_encodable')
+        it = iter(u.lines)
+        in_order = all(any(x == y for y in it) for x in got)
+        if got_ascii != all_ascii[:len(got_ascii)] or len(got_ascii) < least or (n and len(got_ascii) > n) or not in_order:
+            raise Violation('cli_stdout', f'{args} with an ascii-only stdout: the guesses that arrived are not the run\'s guesses in the run\'s order: '
+                            f'{got[:6]} (run: {want_lines[:6]}; representable: {all_ascii[:6]}; in order: {in_order}); rc={rc}', case)
+        return
     if out != want:
         got = out.decode('utf-8', 'replace').split('\n')
         raise Violation('cli_stdout', f'{args} stdin={mode}: stdout has {len(got) - 1} lines, expected {len(want_lines)}; first lines {got[:4]} '
@@ -298,6 +339,9 @@ def cli_cases(draw):
     c.pop('extra_ns')
     c['n'] = draw(st.sampled_from([None, 1, 2, 3, 5, 7, 11]))
     c['stdin'] = draw(st.sampled_from(['devnull', 'devnull', 'open_pipe']))
+    from .. import cli
+    c['context'] = draw(cli.contexts(io_modes=('utf8', 'utf8', 'utf8_strict', 'ascii', 'ascii')))
+    c['long_options'] = draw(st.booleans())
     return c
 
 
